@@ -43,7 +43,7 @@ class C10Machine(Machine):
         "transitive_curie_remap_applied", "uri_remap_applied", "rewire_applied",
         "chain_merged_later_into_earlier", "discover_with_known_uris", "lineage_depth_ge_3",
         "sub_nonempty", "mutation_right_after_derivation", "chain_same_converter_twice",
-        "curie_remap_applied", "large_root",
+        "curie_remap_applied", "large_root", "followup_add_with_pattern",
     ]
 
     @classmethod
@@ -137,7 +137,7 @@ class C10Machine(Machine):
 
     def _gen_new(self, rng):
         cfg = self.config
-        n = rng.randint(1, 4) if not cfg.get("large") else rng.randint(8, 24)
+        n = rng.randint(1, 4) if not cfg.get("large") else rng.choice([8, 15, 16, 17, 24, 31, 32, 33])
         recs = gen_valid_records(rng, cfg["curie_pool"], cfg["uri_pool"], n)
         return {"op": "new", "out": self._fresh_id(), "records": recs, "delimiter": rng.choice(cfg["delimiters"])}
 
@@ -269,6 +269,8 @@ class C10Machine(Machine):
             rec["uri_prefix"] = rng.choice(fresh_u)
         rec["prefix_synonyms"] = [s for s in rec["prefix_synonyms"] if s != rec["prefix"]]
         rec["uri_prefix_synonyms"] = [s for s in rec["uri_prefix_synonyms"] if s != rec["uri_prefix"]]
+        if kind == "add_record" and rng.random() < 0.4:
+            rec["pattern"] = rng.choice(["^\\d+$", "^[A-Z]+$"])      # only add_record can carry a pattern
         return {"op": "mutate", "h": h, "kind": kind, "record": rec,
                 "case_sensitive": rng.random() < 0.8, "merge": rng.random() < cfg["p_merge"]}
 
@@ -321,7 +323,11 @@ class C10Machine(Machine):
                     yield c
             if not op["case_sensitive"]:
                 yield dict(copy.deepcopy(op), case_sensitive=True)
-            if op["kind"] == "add_record":
+            if r.get("pattern"):
+                c = copy.deepcopy(op)
+                c["record"]["pattern"] = None
+                yield c
+            if op["kind"] == "add_record" and not r.get("pattern"):
                 yield dict(copy.deepcopy(op), kind="add_prefix")
 
     # ------------------------------------------------------------ execution
@@ -531,6 +537,8 @@ class C10Machine(Machine):
             if now != ae.lite:
                 raise Violation(PROP, "leak_to_ancestor", site,
                                 {"mutated": h, "ancestor": a, "diff": observe.diff(ae.lite, now), "op": op})
+        if err is None and rd.get("pattern") and anc:
+            self.probe("followup_add_with_pattern")
         if err is None and op["merge"] and hit_inherited and anc:
             self.probe("followup_merge_hits_inherited_record")
             self.nontrivial_hit = True
